@@ -250,8 +250,16 @@ func NewHDRHistogramPlotReporter(m *Metrics) Reporter {
 		}
 
 		total := float64(m.Requests)
+		var prev time.Duration
 		for _, q := range logarithmic {
-			value := milliseconds(m.Latencies.Quantile(q))
+			// The estimated quantiles are subject to floating point error,
+			// the plotted values must never decrease as the percentile grows.
+			latency := m.Latencies.Quantile(q)
+			if latency < prev {
+				latency = prev
+			}
+			prev = latency
+			value := milliseconds(latency)
 			oneBy := oneByQuantile(q)
 			count := int64((q * total) + 0.5) // Count at quantile
 			_, err = fmt.Fprintf(tw, "%f\t%f\t%d\t%f\n", value, q, count, oneBy)
